@@ -550,6 +550,23 @@ func (g *mgen) program() (string, [][]int) {
 // arguments) so that the 32-bit wire-id encoding and the second 64Ki wire
 // page are used, with few gates.
 func (g *mgen) large() (string, [][]int) {
+	if g.ch(10) == 0 {
+		// a wide result: 65 to 82 thousand output bits (the list of result wires and the labels
+		// that come back for them are each larger than any buffer between the parties)
+		n := []int{2048, 2560, 2100}[g.ch(3)]
+		k := []int{32, 8, 32, 16}[g.ch(4)]
+		var b strings.Builder
+		fmt.Fprintf(&b, "package main\n\nfunc main(a [%d]uint32, b uint%d) ([%d]uint32, uint%d) {\n", n, k, n, k)
+		// (no loop over the array: every element update makes a new array value in the compiler,
+		// 2560 of them cost gigabytes; one or two updates and the array itself as the result do)
+		fmt.Fprintf(&b, "\tr := a\n")
+		fmt.Fprintf(&b, "\tr[%d] = a[%d] ^ uint32(b)\n", g.ch(n), g.ch(n))
+		if g.ch(2) == 0 {
+			fmt.Fprintf(&b, "\tr[%d] = r[%d] + a[%d]\n", g.ch(n), g.ch(n), g.ch(n))
+		}
+		fmt.Fprintf(&b, "\treturn r, b + uint%d(a[%d])\n}\n", k, g.ch(n))
+		return b.String(), [][]int{{8}, {8}}
+	}
 	if g.ch(2) == 0 {
 		// the inputs end just around wire 65536, so that the first wires after
 		// the inputs (constants, evaluator input, computed values) sit exactly
